@@ -170,6 +170,11 @@ func (w *World) Violate(prop, class, format string, a ...interface{}) {
 		f = report.Finding{Property: "C16", Class: "lease-guarantee/" + prop + "/" + class, Detail: f.Detail}
 		prop = "C16"
 	}
+	if w.O.Prop == "C13" && prop == "C01" && w.O.Scenario == "chain" && (strings.HasPrefix(class, "panic/server/handle.go") || strings.HasPrefix(class, "panic/plugins/plugin.go")) {
+		// C13: the handlers instantiated are exactly the listed plugins that support the protocol (a nil entry panics here)
+		f = report.Finding{Property: "C13", Class: "handler-list/" + class, Detail: "configuration: " + w.describeChains() + "\n" + f.Detail}
+		prop = "C13"
+	}
 	if w.O.Prop == "C19" && prop == "C01" {
 		// C19: a configuration accepted at start-up (or being set up) must not take the server down
 		f = report.Finding{Property: "C19", Class: "crash/" + class, Detail: "configuration: " + w.describeChains() + "\n" + f.Detail}
@@ -762,7 +767,7 @@ var probeNames = []string{simrt.PLockContended: "sched.lock_contended", simrt.PC
 func (w *World) afterRun(rr simrt.RunResult) {
 	for _, v := range w.Sim.Verdicts {
 		w.Violate(v.Property, v.Class, "%s", v.Detail)
-		if v.Property != w.O.Prop && w.Discard == "" && !(w.O.Prop == "C19" && v.Property == "C01") {
+		if v.Property != w.O.Prop && w.Discard == "" && !(w.O.Prop == "C19" && v.Property == "C01") && !(w.O.Prop == "C13" && v.Property == "C01" && w.O.Scenario == "chain") {
 			// a crash or hang met while checking another property: this run cannot speak about it
 			w.Discard = v.Property + "/" + v.Class
 		}
